@@ -192,6 +192,17 @@ mod imp {
         vec![
             MsmForm { name: "vartime_multiscalar_mul", f: |p, s| El::vartime_multiscalar_mul(s.iter(), p.iter()) },
             MsmForm { name: "vartime_multiscalar_mul(owned)", f: |p, s| El::vartime_multiscalar_mul(s.iter().copied(), p.iter().copied()) },
+            // iterators that under-report their length (size_hint lower bound 0) or are not ExactSize
+            MsmForm { name: "vartime_multiscalar_mul(filter iterators)", f: |p, s| El::vartime_multiscalar_mul(s.iter().filter(|_| true), p.iter().filter(|_| true)) },
+            MsmForm { name: "vartime_multiscalar_mul(from_fn / flat_map iterators)", f: |p, s| {
+                let mut i = 0;
+                let sc = std::iter::from_fn(|| { let r = s.get(i).copied(); i += 1; r });
+                El::vartime_multiscalar_mul(sc, p.iter().flat_map(|e| Some(*e)))
+            } },
+            MsmForm { name: "vartime_multiscalar_mul(chain / take_while iterators)", f: |p, s| {
+                let h = s.len() / 2;
+                El::vartime_multiscalar_mul(s[..h].iter().chain(s[h..].iter()), p.iter().take_while(|_| true))
+            } },
             MsmForm { name: "VariableBaseMSM::msm", f: |p, s| {
                 let bases = El::normalize_batch(p);
                 El::msm(&bases, s).expect("equal lengths")
